@@ -51,7 +51,7 @@ func mdLine(md map[string][]string) string {
 }
 
 func c14Key(c *Ctx, bin bool) string {
-	words := []string{"x", "custom", "trace", "id", "a", "b3", "req", "auth", "zz", "bin", "binary"} // "-bin" may also sit INSIDE a name
+	words := []string{"x", "custom", "trace", "id", "a", "b3", "req", "auth", "zz", "bin", "binary", "grpc", "grpc"} // "-bin" may also sit INSIDE a name; only the listed grpc-* names are reserved, not the prefix
 	n := 1 + c.Rng.Intn(3)
 	var parts []string
 	for i := 0; i < n; i++ {
